@@ -2,10 +2,13 @@ package main
 
 import (
 	"archive/tar"
+	"archive/zip"
 	"bytes"
+	"compress/flate"
 	"compress/gzip"
 	"context"
 	"fmt"
+	"hash/crc32"
 	"io"
 	"net/http"
 	"net/http/httptest"
@@ -669,12 +672,21 @@ func fetchOverlap(c *Ctx, op string) {
 }
 
 func fetchEngine(c *Ctx) {
+	if replayLines() == nil {
+		for _, how := range []string{"deflate", "store"} {
+			for _, mode := range []string{"direct", "copy", "none"} {
+				fetchZipTail(c, fmt.Sprintf("fetch-ziptail %s %s", how, mode))
+			}
+		}
+	}
 	if ls := replayLines(); ls != nil {
 		for _, op := range ls {
 			if strings.HasPrefix(op, "fetch ") && !strings.Contains(op, " #") {
 				fetchExec(c, op)
 			} else if strings.HasPrefix(op, "fetch-overlap ") {
 				fetchOverlap(c, op)
+			} else if strings.HasPrefix(op, "fetch-ziptail ") {
+				fetchZipTail(c, op)
 			} else if strings.HasPrefix(op, "fetch-zipowner ") {
 				fetchZipOwner(c, op)
 			} else if strings.HasPrefix(op, "fetch-cancel-appended ") {
@@ -884,4 +896,117 @@ func fetchZipOwner(c *Ctx, op string) {
 	}
 	c.H("fetch-zipowner:" + which + ":" + strings.Fields(res)[0])
 	c.EmitR(op, "skip", "skip")
+}
+
+// fetchZipTail: a stored zip ware altered so that one entry's data stream yields the genuine bytes *plus a tail*, while
+// every header keeps the genuine size and checksum (the recomputed tree hash of the declared sizes would still be W). Such
+// bytes are not ware W: unpack refuses them in every placement mode, shelves nothing, and mirror does not publish them.
+// Recipe: "fetch-ziptail <deflate|store> <mode>".
+func fetchZipTail(c *Ctx, op string) {
+	c.Begin(op)
+	f := strings.Fields(op)
+	how, mode := f[1], f[2]
+	caseCounter++
+	base := filepath.Join(c.Work, fmt.Sprintf("fzt%d", caseCounter))
+	defer rmrf(base)
+	src, whDir, wh2, cache := filepath.Join(base, "src"), filepath.Join(base, "wh"), filepath.Join(base, "wh2"), filepath.Join(base, "cache")
+	os.MkdirAll(whDir, 0755)
+	os.MkdirAll(wh2, 0755)
+	os.Setenv("RIO_CACHE", cache)
+	os.Setenv("RIO_BASE", filepath.Join(base, "riobase"))
+	ctx := context.Background()
+	genuine := bytes.Repeat([]byte("genuine content of the entry\n"), 20)
+	fsx := Fileset{{Name: "", Kind: 'd', Perms: 0755, Uid: 1000, Gid: 1000, Sec: 1e9},
+		{Name: "data", Kind: 'f', Perms: 0644, Uid: 1000, Gid: 1000, Sec: 1e9, Content: genuine}, {Name: "z", Kind: 'f', Perms: 0644, Uid: 1000, Gid: 1000, Sec: 1e9, Content: []byte("z")}}
+	c.EmitR(op, "skip", "skip")
+	if err := Materialize(fsx, src, nil); err != nil {
+		return
+	}
+	fn := funcsFor("zip")
+	id, err := fn.pack(ctx, "zip", src, api.MustParseFilesetPackFilter(losslessPackStr), whAddr("ca", whDir), rio.Monitor{})
+	if err != nil {
+		return
+	}
+	warePath := storedWarePath("ca", whDir, id)
+	stored, _ := os.ReadFile(warePath)
+	zr, err := zip.NewReader(bytes.NewReader(stored), int64(len(stored)))
+	if err != nil {
+		return
+	}
+	tail := []byte("\nsmuggled tail: rm -rf / #\n")
+	var out bytes.Buffer
+	zw := zip.NewWriter(&out)
+	touched := false
+	for _, zf := range zr.File {
+		h := zf.FileHeader
+		if zf.Name == "data" || zf.Name == "./data" {
+			touched = true
+			body := append(append([]byte(nil), genuine...), tail...)
+			var raw bytes.Buffer
+			if how == "deflate" {
+				fw, _ := flate.NewWriter(&raw, 6)
+				fw.Write(body)
+				fw.Close()
+				h.Method = zip.Deflate
+			} else {
+				raw.Write(body)
+				h.Method = zip.Store
+			}
+			h.CompressedSize64 = uint64(raw.Len())
+			h.UncompressedSize64 = uint64(len(genuine)) // the genuine size and the genuine checksum stay
+			h.CRC32 = crc32.ChecksumIEEE(genuine)
+			h.Flags &^= 0x8
+			w, e := zw.CreateRaw(&h)
+			if e != nil {
+				return
+			}
+			w.Write(raw.Bytes())
+			continue
+		}
+		rr, e := zf.OpenRaw()
+		if e != nil {
+			return
+		}
+		w, e := zw.CreateRaw(&h)
+		if e != nil {
+			return
+		}
+		io.Copy(w, rr)
+	}
+	zw.Close()
+	if !touched {
+		c.H("fetch-ziptail:no-entry")
+		return
+	}
+	os.WriteFile(warePath, out.Bytes(), 0644)
+	dst := filepath.Join(base, "dst")
+	id3, err3, pan3 := safeCall(func() (api.WareID, error) {
+		return fn.unpack(ctx, id, dst, api.MustParseFilesetUnpackFilter(losslessUnpackStr), rio.PlacementMode(mode), []api.WarehouseLocation{whAddr("ca", whDir)}, rio.Monitor{})
+	})
+	if mode == "mount" {
+		syscall.Unmount(dst, 0)
+	}
+	res := resTok(id3, err3, pan3)
+	shelves, _ := filepath.Glob(filepath.Join(cache, "zip", "fileset", "*", "*", "*"))
+	switch {
+	case pan3 != "":
+		c.PropFail("fetch-panic", "unpack of a zip whose entry stream is longer than declared panicked: "+pan3, op)
+	case err3 == nil:
+		c.PropFail("fetch-accepted-altered", fmt.Sprintf("a zip ware in which the %s data stream of one entry carries %d bytes more than its headers declare was accepted as %s (placement %s)", how, len(tail), id.Hash, mode), op)
+	case len(shelves) > 0:
+		c.PropFail("fetch-shelved-altered", "a refused zip ware (entry stream longer than declared) left a shelf in the fileset cache", op)
+	}
+	_, err5, pan5 := safeCall(func() (api.WareID, error) {
+		return fn.mirror(ctx, id, whAddr("ca", wh2), []api.WarehouseLocation{whAddr("ca", whDir)}, rio.Monitor{})
+	})
+	_, finalErr := os.Lstat(storedWarePath("ca", wh2, id))
+	switch {
+	case pan5 != "":
+		c.PropFail("fetch-panic", "mirror of a zip whose entry stream is longer than declared panicked: "+pan5, op)
+	case err5 == nil:
+		c.PropFail("mirror-accepted-altered", "mirror accepted a zip ware in which one entry's data stream is longer than its headers declare", op)
+	case finalErr == nil:
+		c.PropFail("mirror-committed-altered", "a failed mirror (entry stream longer than declared) left an object at the target's final address", op)
+	}
+	c.H("fetch-ziptail:" + how + ":" + mode + ":" + strings.Join(strings.Fields(res)[:min(2, len(strings.Fields(res)))], "_"))
 }
